@@ -145,55 +145,136 @@ pub fn gen_case(rng: &mut Rng, kind: &str) -> Case {
 		})
 		.collect();
 	let nsteps = rng.range(8, 40) as usize;
-	let mut steps = Vec::new();
-	let mut flushes_since_clean = 0;
 	let invalid_rate = if kind == "c08" { 4 } else { 40 };
-	for _ in 0..nsteps {
-		let s = match rng.below(20) {
-			0..=8 => {
-				let n = rng.range(1, 5) as usize;
-				let mut ops = Vec::new();
-				for _ in 0..n {
-					let c = rng.below(ncols as u64) as usize;
-					let k = rng.below(nkeys as u64) as usize;
-					let opc = if cols[c].rc {
-						*rng.pick(&[0u8, 0, 1, 1, 2])
-					} else if rng.chance(1, invalid_rate) {
-						2
-					} else {
-						*rng.pick(&[0u8, 0, 0, 1])
-					};
-					let vtok = if cols[c].preimage {
-						fixed[c][k]
-					} else {
-						(rng.range(1, 1 << 20) << 32) | size_classes(rng)
-					};
-					ops.push((c as u8, opc, k, if opc == 0 { vtok } else { 0 }));
-				}
-				Step::Commit(ops)
+	let mut gen_commit = |rng: &mut Rng| -> Step {
+		let n = rng.range(1, 5) as usize;
+		let mut ops = Vec::new();
+		for _ in 0..n {
+			let c = rng.below(ncols as u64) as usize;
+			let k = rng.below(nkeys as u64) as usize;
+			let opc = if cols[c].rc {
+				*rng.pick(&[0u8, 0, 1, 1, 2])
+			} else if rng.chance(1, invalid_rate) {
+				2
+			} else {
+				*rng.pick(&[0u8, 0, 0, 1])
+			};
+			let vtok = if cols[c].preimage { fixed[c][k] } else { (rng.range(1, 1 << 20) << 32) | size_classes(rng) };
+			ops.push((c as u8, opc, k, if opc == 0 { vtok } else { 0 }));
+		}
+		Step::Commit(ops)
+	};
+	let mut raw: Vec<Step> = Vec::new();
+	if kind == "c03" && rng.chance(1, 2) {
+		// pile-up: logs recycled out of order, then more pending log files at the drop than
+		// kill_logs enacts (it reads at most three files)
+		for _ in 0..rng.range(1, 3) {
+			raw.push(gen_commit(rng));
+			raw.push(Step::Process);
+			raw.push(Step::Flush);
+		}
+		for _ in 0..rng.range(1, 2) {
+			raw.push(Step::EnactAll);
+		}
+		raw.push(Step::Clean);
+		for _ in 0..rng.range(3, 7) {
+			raw.push(gen_commit(rng));
+			raw.push(Step::Process);
+			if rng.chance(1, 5) {
+				raw.push(gen_commit(rng));
+				raw.push(Step::Process);
+			}
+			raw.push(Step::Flush);
+			if rng.chance(1, 6) {
+				raw.push(Step::EnactOne);
+			}
+		}
+		if rng.chance(1, 2) {
+			raw.push(gen_commit(rng));
+		}
+		raw.push(Step::Reopen);
+		for _ in 0..rng.range(0, 4) {
+			raw.push(gen_commit(rng));
+			raw.push(Step::Process);
+		}
+	} else {
+		for _ in 0..nsteps {
+			let s = match rng.below(20) {
+				0..=8 => gen_commit(rng),
+				9..=12 => Step::Process,
+				13..=14 => Step::Flush,
+				15..=16 => Step::EnactAll,
+				17 => Step::Clean,
+				18 => Step::EnactOne,
+				_ => Step::Reopen,
+			};
+			// C03: drops at more pipeline states
+			let s = if kind == "c03" && rng.chance(1, 8) { Step::Reopen } else { s };
+			raw.push(s);
+		}
+	}
+	// Without background threads nobody cleans logs: enacting with more than MAX_LOG_FILES (4)
+	// fully read logs waiting for cleanup blocks for ever. Simulate the log-file bookkeeping and
+	// insert a clean step where the real workers would have cleaned.
+	let mut steps = Vec::new();
+	let (mut queued, mut app, mut readq, mut reading, mut dirty): (usize, usize, Vec<usize>, Option<usize>, usize) = (0, 0, Vec::new(), None, 0);
+	let enact_one = |readq: &mut Vec<usize>, reading: &mut Option<usize>, dirty: &mut usize| -> bool {
+		if reading.is_none() && !readq.is_empty() {
+			*reading = Some(readq.remove(0));
+		}
+		match *reading {
+			None => false,
+			Some(0) => {
+				*reading = None;
+				*dirty += 1;
+				false
 			},
-			9..=12 => Step::Process,
-			13..=14 => Step::Flush,
-			15..=16 => Step::EnactAll,
-			17 => Step::Clean,
-			18 => Step::EnactOne,
-			_ => Step::Reopen,
-		};
-		// C03: drops at more pipeline states
-		let s = if kind == "c03" && rng.chance(1, 8) { Step::Reopen } else { s };
-		match s {
-			Step::Flush => {
-				if flushes_since_clean >= 3 {
-					steps.push(Step::EnactAll);
-					steps.push(Step::EnactAll);
-					steps.push(Step::EnactAll);
+			Some(n) => {
+				*reading = Some(n - 1);
+				true
+			},
+		}
+	};
+	for s in raw {
+		match &s {
+			Step::Commit(ops) => {
+				let invalid = ops.iter().any(|(c, o, _, _)| *o == 2 && !cols[*c as usize].rc);
+				if !invalid {
+					queued += 1;
+				}
+			},
+			Step::Process =>
+				if queued > 0 {
+					queued -= 1;
+					app += 1;
+				},
+			Step::Flush =>
+				if app > 0 {
+					readq.push(app);
+					app = 0;
+				},
+			Step::EnactOne | Step::EnactAll => {
+				if dirty >= 4 {
 					steps.push(Step::Clean);
-					flushes_since_clean = 0;
+					dirty = 0;
 				}
-				flushes_since_clean += 1;
+				if matches!(s, Step::EnactOne) {
+					enact_one(&mut readq, &mut reading, &mut dirty);
+				} else {
+					while enact_one(&mut readq, &mut reading, &mut dirty) {}
+				}
 			},
-			Step::Clean | Step::Reopen => flushes_since_clean = 0,
-			_ => (),
+			Step::Clean => dirty = 0,
+			Step::Reopen => {
+				if dirty >= 2 {
+					steps.push(Step::Clean);
+				}
+				queued = 0;
+				app = 0;
+				readq.clear();
+				reading = None;
+				dirty = 0;
+			},
 		}
 		steps.push(s);
 	}
@@ -316,7 +397,11 @@ pub fn run_impl(case: &Case, dir: &std::path::Path) -> Run {
 	let mut iters = Vec::new();
 	let res = std::panic::catch_unwind(std::panic::AssertUnwindSafe(|| {
 		let mut db = Some(Db::open_or_create(&opts).expect("open_or_create"));
+		let trace = std::env::var("VERIF_TRACE").is_ok();
 		for s in &case.steps {
+			if trace {
+				eprintln!("step {:?} dirty={}", s, db.as_ref().unwrap().verif_num_dirty_logs());
+			}
 			let mut line: Vec<u64> = Vec::new();
 			let d = db.as_ref().unwrap();
 			let status = match s {
